@@ -901,7 +901,7 @@ pub fn worker(cfg: &WorkerCfg, emit: &mut dyn FnMut(Violation)) -> Stats {
         } else {
             stats.digests.insert(g, out.interleaving_hash ^ out.trace_digest.rotate_left(3) ^ fnv(format!("{:?}", outcomes).as_bytes()));
         }
-        if stats.samples.len() < 3 && (inside_switch && g % 11 == 0) {
+        if stats.samples.is_empty() || (stats.samples.len() < 3 && (inside_switch && g % 11 == 0)) {
             let mut small = sc.clone();
             small.files = small.files.into_iter().map(|(k, v)| (k, if v.len() > 300 { format!("{}...", &v[..v.char_indices().take_while(|(i, _)| *i < 300).last().map(|(i, c)| i + c.len_utf8()).unwrap_or(0)]) } else { v })).collect();
             for e in small.entries.values_mut() {
